@@ -38,7 +38,7 @@ def main():
         how = []
         for c in det:
             lines = runs.get(c, {}).get("lines", [])
-            concrete = any(l.startswith("VIOLATION") and not l.endswith("no-failing-input-found") for l in lines)
+            concrete = any(l.startswith("VIOLATION") and not l.endswith("no-failing-input-found") for l in lines) or c in m.get("concrete_input", [])
             how.append("%s (%s)" % (c, "failing input" if concrete else "tie broken"))
         missed = [c for c in runs if c not in det]
         rows.append((d, m.get("summary", "").replace("|", "/").replace("\n", " "), m.get("needs", "").replace("|", "/").replace("\n", " "),
